@@ -27,9 +27,9 @@ ANCHORS = ["Scenario.assign_obstacles_to_lanelets", "Scenario._add_static_obstac
 REQUIRED = ["op.add", "op.assign-all", "op.assign-ids", "op.assign-times", "op.assign-center-only", "op.remove",
             "op.remove-list", "op.re-add", "route.xml", "route.protobuf", "shape.Rectangle", "shape.Circle",
             "shape.Polygon", "shape.ShapeGroup", "obstacle.static", "obstacle.dynamic-trajectory", "obstacle.dynamic-none",
-            "straddling(centre-lanelets<shape-lanelets)", "inv-g-checked", "inv-r-checked"]
-EXHAUSTIVE = {"quick": "all histories of length <= 2 over the 9-operation alphabet on a fixed 2-obstacle universe",
-              "thorough": "all histories of length <= 3 over the 9-operation alphabet on a fixed 2-obstacle universe"}
+            "straddling(centre-lanelets<shape-lanelets)", "inv-g-checked", "inv-r-checked", "op.move"]
+EXHAUSTIVE = {"quick": "all histories of length <= 2 over the 10-operation alphabet on a fixed 2-obstacle universe",
+              "thorough": "all histories of length <= 3 over the 10-operation alphabet on a fixed 2-obstacle universe"}
 ASSUMPTIONS = ["set-based predictions are outside the quantifier", "obstacles are added after the network exists",
                "after a centre-only assignment INV-R is not judged for that obstacle (registries then hold centre "
                "lanelets by design)", "verdicts within 1e-9 of a lanelet boundary are judged only on the lattice"]
@@ -268,6 +268,15 @@ def run(ctx):
                         for oid in (ids or contained):
                             if all((oid, t, "shape") in assigned for t in horizon(pool[oid])):
                                 center_only.discard(oid)
+                elif op == "move":
+                    # the obstacle is moved through its public method; what was recorded is out of date until the next
+                    # assignment (not judged in between), and the NEXT assignment replaces it completely
+                    if arg not in contained:
+                        continue
+                    ctx.feature("op.move")
+                    pool[arg].translate_rotate(np.array([lattice.q(rng, -6, 6), lattice.q(rng, -6, 6)]), 0.0)
+                    assigned = {a for a in assigned if a[0] != arg}
+                    center_only.add(arg)
                 elif op in ("remove", "remove-list"):
                     keys = [arg] if op == "remove" else list(arg)
                     keys = [k for k in keys if k in contained]
@@ -294,7 +303,7 @@ def run(ctx):
     # ----------------------------------------------------------------- exhaustive over a fixed 2-obstacle universe
     import itertools
     alphabet = [("add", 101), ("add", 102), ("assign-all", None), ("assign-ids", 101), ("assign-times", (0, 1)),
-                ("assign-center-only", None), ("remove", 101), ("remove", 102), ("remove-list", (101, 102))]
+                ("assign-center-only", None), ("remove", 101), ("remove", 102), ("remove-list", (101, 102)), ("move", 101)]
     depth = ctx.pick(2, 3)
     seqs = [s for d in range(1, depth + 1) for s in itertools.product(range(len(alphabet)), repeat=d)]
     universes = ctx.pick(6, 40)
@@ -336,6 +345,8 @@ def run(ctx):
                 hist.append(("assign-times", tuple(sorted(rng.sample(range(0, 5), rng.randint(1, 3))))))
             elif c < 0.72:
                 hist.append(("assign-center-only", None))
+            elif c < 0.80:
+                hist.append(("move", rng.choice(ids)))
             elif c < 0.9:
                 hist.append(("remove", rng.choice(ids)))
             else:
